@@ -17,7 +17,8 @@ LIB_FILES = ["__init__.py", "_args.py", "_blocks.py", "_code_data.py", "_constan
 
 @harness("frame.store_sites", props=["C12"], functions=["code_data.%s.%s" % (f[:-3], n) for f, fns in frame.API.items() for n in fns], configs="any",
          assumes=["field annotations of the repo's dataclasses are trusted for immutability (int/str/bool/bytes/Optional[int]/tuple[str,...] load as immutable)",
-                  "callee `modifies` summaries are the contracts listed in pcv/frame.py (each callee is itself checked against its own)"],
+                  "callee `modifies` summaries are the contracts listed in pcv/frame.py (each callee is itself checked against its own)",
+                  "calls into other modules assumed to read their arguments only and to change no interpreter-wide state: " + ", ".join(sorted(frame.PURE_EXTERNALS))],
          notes="allocation/alias abstract interpretation of every function behind from_code, to_code, normalize, to_json_data, from_json_data: every store site "
                "writes to a container allocated in the same call or to a parameter the contract lists as modified; callers pass fresh actuals for those")
 def h_store_sites(ctx, cfg):
